@@ -268,7 +268,16 @@ def run(rep):
                             ok = ok and len(prods) == 2 and lits in (["('f', '0.0')", "('f', '1.0')"], ["('i', 0)", "('i', 1)"])
                             rep.check(ok, "T-CAST", vkey, va["sp"], "bool converts to 1/0", bshow[:100])
                         else:
-                            rep.check(ok, "T-CAST", vkey, va["sp"], "produces Value::%s or False" % want, bshow[:100])
+                            if cast == "Flt" and set(kinds) <= {"Int", "UInt"}:
+                                # flt() of an integer is a precision-only conversion: it never answers False.  A guard is accepted only
+                                # if it is a tautology of the form  x <= (f64::MAX as <int type>)  (a saturating constant = the type's MAX)
+                                for g in [x for x in walk(va["body"]) if x.get("k") == "If" and not x.get("exp")]:
+                                    c = peel(g["cond"])
+                                    r_ = peel(c["rhs"]) if c.get("k") == "Binary" else {}
+                                    taut = c.get("k") == "Binary" and c["op"] == "Le" and peel(c["lhs"]).get("k") == "Var" and r_.get("k") == "Cast" and r_.get("from") == "f64" \
+                                        and peel(r_["arg"]).get("k") == "Const" and str(peel(r_["arg"]).get("path", "")).endswith("f64>::MAX") and r_.get("ty") == peel(c["lhs"]).get("ty")
+                                    ok = ok and taut
+                            rep.check(ok, "T-CAST", vkey, va["sp"], "produces Value::%s or False%s" % (want, " (flt of an integer: every value converts)" if cast == "Flt" and set(kinds) <= {"Int", "UInt"} else ""), bshow[:100])
                     continue
                 rep.bad("T-CAST", key, a["sp"], "operand arm of a known kind", ps)
         l = show(blocks["left"], skip_debug=True)
@@ -375,6 +384,8 @@ def run(rep):
     # the optimised (matrix) form of a numeric comparison keeps the operand's cast kind and literal (shared with C03's L-MATRIX)
     import core
     core.import_rules(rep, "c03", {"L-MATRIX"}, key_prefixes=("L-MATRIX/cell-",))
+    # "str() compares the canonical decimal text": the constant side is rendered by the loader's number lowering (shared with C02)
+    core.import_rules(rep, "c02", {"T-YAML"}, key_prefixes=("T-YAML/single/Number", "T-YAML/list/Number", "T-YAML/"))
     rep.extra["casts_classified"] = ncasts
     if rep.tier == "thorough":
         import poscontrol
